@@ -27,7 +27,7 @@ RULE = ("random release tables (1-12 rows, 1-5 distinct times on the model time 
         "time-typed particle variable, header in file or names in configuration, X/Y or lon/lat), discrete and continuous "
         "(frequency 1-4 steps), forward and reversed, still water, output every step. Non-trivial: at least two release "
         "events at different steps or rows outside the window or mult != 1; distinct by (mode, direction, step/mult pattern).")
-MANDATORY = ["time_typed_column_with_mixed_iso_precisions", "lonlat_position_on_off_diagonal_subgrid", "integer_column_beyond_2_to_53", "discrete_release_with_frequency_entry", "file_with_XY_and_lonlat", "table_with_17_or_more_rows_several_per_time", "release_after_particles_were_removed", "discrete_forward", "discrete_reversed", "continuous_forward", "continuous_reversed",
+MANDATORY = ["warm_started_leg_with_later_releases", "continuous_file_time_with_only_mult_zero_after_a_releasing_one", "time_typed_column_with_mixed_iso_precisions", "lonlat_position_on_off_diagonal_subgrid", "integer_column_beyond_2_to_53", "discrete_release_with_frequency_entry", "file_with_XY_and_lonlat", "table_with_17_or_more_rows_several_per_time", "release_after_particles_were_removed", "discrete_forward", "discrete_reversed", "continuous_forward", "continuous_reversed",
              "row_before_start", "row_at_or_after_stop", "mult_zero", "mult_gt1", "several_rows_per_time", "lonlat_position",
              "names_in_config", "particle_variable_column", "release_hook_events", "time_typed_column_values", "column_with_configured_default"]
 ASSUMPTIONS = ["release times on the model time grid and sorted in simulation order (as the property quantifies)",
@@ -130,6 +130,16 @@ def gen_case(seed: int, idx: int) -> dict[str, Any]:
                 else:
                     row.append(float(np.round(rng.uniform(0, 10), 4)))
             rows.append(row)
+    if cont and use_mult and idx % 8 in (2, 3) and len(steps) >= 2:
+        # continuous mode: a later file time whose whole row set has mult = 0 switches the release off from that time on (until the next file time)
+        mi_ = cols.index("mult")
+        t_off = str(tadd(start, sgn * steps[1] * dt))
+        for r_ in rows:
+            if r_[0] == t_off:
+                r_[mi_] = 0
+        first_t = str(tadd(start, sgn * steps[0] * dt))
+        if all(r_[mi_] == 0 for r_ in rows if r_[0] == first_t):
+            next(r_ for r_ in rows if r_[0] == first_t)[mi_] = 2
     return dict(idx=idx, dt=dt, nsteps=nsteps, reversed=rev, continuous=cont, freq_steps=freq_steps, start=start, stop=stop,
                 columns=cols, rows=rows, header=header, extras=extras, lonlat=lonlat, use_mult=use_mult,
                 release_time_pv=rel_time_pv, imax=imax, jmax=jmax, both=both, big=big, bigint=bigint)
@@ -252,6 +262,14 @@ def run_case(case: dict[str, Any], wd: Path) -> dict[str, Any]:
             sched.setdefault(str(s_), []).append(pid_)
         scn["run"]["ibm"] = dict(module=C.REC_IBM, kill=sched, log=False)
 
+    # a twelfth of the cases (discrete, no IBM): the output is split so that the run can be taken up again from its first file; the rows
+    # scheduled after the restart must enter the continuation exactly as they enter the uninterrupted run
+    kcut = case["nsteps"] // 2
+    warm_leg = bool(case["idx"] % 12 in (0, 1) and not case["continuous"] and case["nsteps"] >= 5 and not killed_at
+                    and abs(int((np.datetime64(case["stop"], "s") - np.datetime64(case["start"], "s")) / np.timedelta64(1, "s"))) == case["nsteps"] * case["dt"])
+    if warm_leg:
+        scn["run"]["output"]["numrec"] = kcut + 1
+
     def before(self, *a, **k):
         return self.modules["state"].npid
 
@@ -283,6 +301,15 @@ def run_case(case: dict[str, Any], wd: Path) -> dict[str, Any]:
         mi = cols.index("mult")
         sit["mult_zero"] = int(any(r[mi] == 0 for r in case["rows"]))
         sit["mult_gt1"] = int(any(r[mi] > 1 for r in case["rows"]))
+    if case["continuous"] and case["use_mult"]:
+        mi = cols.index("mult")
+        seen_nonzero = False
+        for t_ in dict.fromkeys(r[0] for r in case["rows"]):
+            grp = [r for r in case["rows"] if r[0] == t_]
+            p_ = poss[case["rows"].index(grp[0])]
+            if seen_nonzero and all(r[mi] == 0 for r in grp) and p_ < length:
+                sit["continuous_file_time_with_only_mult_zero_after_a_releasing_one"] = 1
+            seen_nonzero = seen_nonzero or any(r[mi] > 0 for r in grp)
     sit["several_rows_per_time"] = int(len(set(poss)) < len(poss))
     sit["lonlat_position"] = int(case["lonlat"])
     sit["lonlat_position_on_off_diagonal_subgrid"] = int(case["lonlat"] and case["idx"] % 2 == 0)
@@ -398,5 +425,42 @@ def run_case(case: dict[str, Any], wd: Path) -> dict[str, Any]:
         if len(set(int(p) for p in r.pid)) != len(r.pid):
             V.append(C.viol(f"record {ri}: identifiers repeat within the record ({[int(p) for p in r.pid][:12]}): a release did not yield new particles"))
             break
+    if warm_leg and not V and len(res.outputs) >= 2:
+        extra_names = [e[0] for e in case["extras"]] + (["release_time"] if case["release_time_pv"] else [])
+        run2 = dict(scn["run"], warm_start=dict(filename=str(res.outputs[0]), variables=extra_names))
+        run2["output"] = dict(scn["run"]["output"], filename="warm.nc", numrec=0)
+        res2, _c2, _w2 = run_scenario(dict(world=None, run=run2), wd / "warm", world=_w)
+        later = [(pid, e) for pid, e in enumerate(exp) if e["step"] > kcut]
+        sit["warm_started_leg_with_later_releases"] = int(bool(later))
+        if not res2.ok:
+            V.append(C.viol(f"run taken up again from {res.outputs[0].name} (last record at step {kcut}) did not complete: {res2.exc}", tb=res2.tb[-1200:]))
+        else:
+            files2 = read_outputs(res2.outputs)
+            t0_ = np.datetime64(case["start"], "s")
+            first2: dict[int, tuple[int, dict[str, Any]]] = {}
+            for r in all_records(files2):
+                st_ = abs(int((r.time - t0_) / np.timedelta64(1, "s"))) // dt
+                for k, p in enumerate(r.pid):
+                    first2.setdefault(int(p), (st_, {n: v[k] for n, v in r.vars.items()}))
+            new2 = {p: v for p, v in first2.items() if p not in {int(q) for q in files[0].records[-1].pid}}
+            counters["warm_leg_new_particles"] = len(new2)
+            if sorted(new2) != [pid for pid, _e in later]:
+                V.append(C.viol(f"run taken up again from {res.outputs[0].name} (last record at step {kcut}): new particles {sorted(new2)[:20]}, the rows scheduled after the restart are "
+                                f"pids {[pid for pid, _e in later][:20]} at steps {[e['step'] for _p, e in later][:20]}"))
+            else:
+                for pid, e in later:
+                    st_, vals = new2[pid]
+                    d = e["d"]
+                    okpos = True
+                    if not case["lonlat"]:
+                        okpos = abs(vals["X"] - d["X"]) <= 1e-12 and abs(vals["Y"] - d["Y"]) <= 1e-12
+                    if st_ != e["step"] or not okpos or not abs(vals["Z"] - d["Z"]) <= 1e-12:
+                        V.append(C.viol(f"run taken up again from {res.outputs[0].name}: pid {pid} (row {e['row']}, step {e['step']}) first appears at step {st_} at "
+                                        f"({vals['X']},{vals['Y']},{vals['Z']})"))
+                        break
+                    for name, typ, kind in case["extras"]:
+                        if kind == "instance" and typ != "time" and not abs(float(vals[name]) - float(d[name])) <= 1e-9:
+                            V.append(C.viol(f"run taken up again from {res.outputs[0].name}: pid {pid}: extra column {name} = {vals[name]}, row {e['row']} says {d[name]}"))
+                            break
     nontrivial = len(by_step) >= 2 or sit["row_before_start"] or sit["row_at_or_after_stop"] or sit.get("mult_zero") or sit.get("mult_gt1")
     return C.result(V, sit, counters, nontrivial=nontrivial, key=key, sample=sample)
